@@ -1,4 +1,5 @@
 import Heathcliff.Proofs.GenRns8
+import Heathcliff.Proofs.GenRns11
 import Heathcliff.Proofs.C01EW
 
 /-!
@@ -6,7 +7,7 @@ import Heathcliff.Proofs.C01EW
   `RNSTool::new(4, {97, 113}, 17)`, the phase `nv_phase` of a genuine BFV encryption of 3 + 16X + 9X³, a DIRTY destination buffer.
 -/
 namespace HC
-attribute [local instance] nv_decRnsCanon nv_decWFOp nv_decModWF
+attribute [local instance] nv_decRnsCanon nv_decWFOp nv_decModWF nv_decModulus nv_decMulOperand nv_decRNSBase
 
 theorem grw_dsr_sizes : nv_tool.prodTGammaModQ.size = nv_tool.baseQ.size ∧ nv_tool.negInvQModTGamma.size = 2 := by
   refine gr_dsr_sizes_of_new nv_m17_wf ?_ nv_tool_new
@@ -55,5 +56,62 @@ theorem grw_dsr_rounds : ∃ btg conv ig, nv_tool.baseTGamma = some btg ∧ nv_t
   rw [h4] at hj
   rw [hv j hj]
   interval_cases j <;> decide +kernel
+
+/-! ### `fastbconv_sk`: the Shenoy–Kumaresan conversion of ⌊·/Q⌋ = (−1, −1, 0, −1) (the fast-floor output `nv_p4` of NonVac.lean) back to base q -/
+
+def grw_decConv : DecidableEq BaseConverter := fun a b =>
+  decidable_of_iff (a.ibase = b.ibase ∧ a.obase = b.obase ∧ a.matrix = b.matrix) (by cases a; cases b; simp)
+attribute [local instance] grw_decConv
+
+def grw_bMsk : RNSBase := (RNSBase.new [nv_a0]).toOption.getD default
+theorem grw_bMsk_new : RNSBase.new [nv_a0] = .ok grw_bMsk := nv_ok_of_isOk default (by decide +kernel)
+theorem grw_baseB_new : RNSBase.new [nv_a2, nv_a3] = .ok nv_tool.baseB := nv_ok_of_toOption (by decide +kernel)
+theorem grw_bToQ_new : BaseConverter.new nv_tool.baseB nv_tool.baseQ = .ok nv_tool.bToQ := nv_ok_of_toOption (by decide +kernel)
+theorem grw_bToMsk_new : BaseConverter.new nv_tool.baseB grw_bMsk = .ok nv_tool.bToMsk := nv_ok_of_toOption (by decide +kernel)
+
+theorem grw_baseB_wf : nv_tool.baseB.WF :=
+  (RNSBase.new_wf (by
+    intro m hm; simp only [List.mem_cons, List.not_mem_nil, or_false] at hm
+    rcases hm with rfl | rfl
+    · exact (Modulus.mk?_wf nv_aux_mk.2.2.1 (by decide)).1
+    · exact (Modulus.mk?_wf nv_aux_mk.2.2.2 (by decide)).1) (by decide) grw_baseB_new).1
+theorem grw_bMsk_wf : grw_bMsk.WF :=
+  (RNSBase.new_wf (by
+    intro m hm; simp only [List.mem_cons, List.not_mem_nil, or_false] at hm
+    rw [hm]; exact (Modulus.mk?_wf nv_aux_mk.1 (by decide)).1) (by decide) grw_bMsk_new).1
+
+/-- `gr_fastbconv_sk_exact` applies (all hypotheses hold for `nv_p4`, V = (−1, −1, 0, −1), a DIRTY destination), and the generated function returns
+    −1, −1, 0, −1 modulo 97 and modulo 113 -/
+theorem grw_sk_exact : GenR.fastbconv_sk (flatP nv_p4) (flatP #[#[9, 9, 9, 9], #[9, 9, 9, 9]]) nv_tool.baseQ.size nv_tool.baseB.size nv_tool.n nv_tool.mSk
+      nv_tool.invProdBModMsk nv_tool.baseQ.base.toList nv_tool.prodBModQ.toList (gr_convF nv_tool.bToQ) (gr_convF nv_tool.bToMsk)
+    = .ok [96, 96, 0, 96, 112, 112, 0, 112] := by
+  have hq : nv_tool.baseQ = nv_base := nv_tool_shape.2.1
+  obtain ⟨out, hok, hv⟩ := gr_fastbconv_sk_exact nv_tool nv_p4 #[#[9, 9, 9, 9], #[9, 9, 9, 9]] (fun j => ([-1, -1, 0, -1] : List Int).getD j 0)
+    (bMsk := grw_bMsk) grw_baseB_wf (by rw [hq]; exact nv_base_wf) grw_bMsk_wf (by decide +kernel) (by decide +kernel) grw_bToQ_new grw_bToMsk_new
+    (by decide +kernel)
+    (by have h : ∀ i, i < nv_tool.baseB.size + 1 → (nv_p4.getD i #[]).size = nv_tool.n := by decide +kernel
+        exact h)
+    (by decide +kernel)
+    (by have h : ∀ i, i < nv_tool.baseQ.size → ((#[#[9, 9, 9, 9], #[9, 9, 9, 9]] : RnsPoly).getD i #[]).size = nv_tool.n := by decide +kernel
+        exact h)
+    (by decide +kernel) (by decide +kernel) (by decide +kernel) (by decide +kernel) (by decide +kernel) (by decide +kernel)
+    (by have h : ∀ i, i < nv_tool.baseQ.size → 0 < nv_tool.prodBModQ.getD i 0 ∧ nv_tool.prodBModQ.getD i 0 < (nv_tool.baseQ.q i).value ∧
+          ((nv_tool.prodBModQ.getD i 0 : Nat) : Int) ≡ nv_tool.baseB.prod [ZMOD (nv_tool.baseQ.q i).value] := by decide +kernel
+        exact h)
+    (by have h : ∀ i, i < nv_tool.baseB.size → ∀ j, j < nv_tool.n → (nv_p4.getD i #[]).getD j 0 < 2^64 ∧
+          (((nv_p4.getD i #[]).getD j 0 : Nat) : Int) ≡ ([-1, -1, 0, -1] : List Int).getD j 0 [ZMOD (nv_tool.baseB.q i).value] := by decide +kernel
+        exact fun i j hi hj => h i hi j hj)
+    (by have h : ∀ j, j < nv_tool.n → (nv_p4.getD nv_tool.baseB.size #[]).getD j 0 ≤ nv_tool.mSk.value ∧
+          (((nv_p4.getD nv_tool.baseB.size #[]).getD j 0 : Nat) : Int) ≡ ([-1, -1, 0, -1] : List Int).getD j 0 [ZMOD nv_tool.mSk.value] := by decide +kernel
+        exact h)
+    (by have h : ∀ j, j < nv_tool.n → 2 * |([-1, -1, 0, -1] : List Int).getD j 0| + 2 * (nv_tool.baseB.size : Int) * nv_tool.baseB.prod
+          ≤ nv_tool.baseB.prod * nv_tool.mSk.value := by decide +kernel
+        exact h)
+  rw [hok]
+  have hval : (GenR.fastbconv_sk (flatP nv_p4) (flatP #[#[9, 9, 9, 9], #[9, 9, 9, 9]]) nv_tool.baseQ.size nv_tool.baseB.size nv_tool.n nv_tool.mSk
+      nv_tool.invProdBModMsk nv_tool.baseQ.base.toList nv_tool.prodBModQ.toList (gr_convF nv_tool.bToQ) (gr_convF nv_tool.bToMsk)).toOption
+      = some [96, 96, 0, 96, 112, 112, 0, 112] := by decide +kernel
+  rw [hok] at hval
+  simpa [Except.toOption] using hval
 
 end HC
